@@ -70,6 +70,14 @@ def gen(ch, cfg, prefix):
         # markers are recognised by identity
         pos = ch.draw(len(items))
         items[pos] = Anything(("any", pos)) if ch.chance(1, 2) else ...  # (or the Ellipsis singleton: data as well)
+    sc.key_by_keyword = ch.chance(1, 2)
+    sc.none_key_form = ch.draw(3)
+    if sc.key is not None and sc.key.kind == "keyval" and len(items) >= 2 and ch.chance(1, 6):
+        # the key of some items is an awaitable object (a job handle, grouped by identity): a key like any other, nobody
+        # awaits it (not at the first position: a plain function whose *first* result is awaitable counts as asynchronous)
+        for n in range(ch.between(1, 2)):
+            pos = ch.between(1, len(items) - 1)
+            items[pos] = AwaitableItem(("awk", pos))
     sc.src = g.src(items)
     if ch.chance(1, 8):
         # a plain container (can be iterated again from the start): only what the consumer sees is compared then
@@ -88,7 +96,11 @@ async def history_async(sc, world, results):
     src = make_async_source(world, sc.src)
     fn = make_async_fn(world, sc.key) if sc.key is not None else None
     L = lib()
-    gb = L.groupby(src.obj, fn.obj) if fn is not None else L.groupby(src.obj)
+    if fn is not None:
+        gb = L.groupby(src.obj, fn.obj) if not sc.key_by_keyword else L.groupby(src.obj, key=fn.obj)
+    else:
+        # no key: the argument left out, or None given explicitly (by position or by keyword) - all the same
+        gb = (L.groupby(src.obj), L.groupby(src.obj, None), L.groupby(src.obj, key=None))[sc.none_key_form]
     groups = []
     log = world.log
     for n, (op, i) in enumerate(sc.ops):
